@@ -50,6 +50,7 @@ type cfg struct {
 	// ordering of the drivers (default: all concurrent): RefsAfterHist - the Refilter script starts once the parent's
 	// history is over; HistAfterRefs - the history starts once every Refilter call has returned
 	RefsAfterHist, HistAfterRefs bool
+	SlowNode                     bool // filtered nodes are slower than their parent (2 ms per event)
 	Sibling                      bool // a plain sibling subscription, created first, is closed while the history runs
 	Mode                         string
 	Bound                        int
@@ -162,7 +163,12 @@ func (in *inst) spec() []hx.Spec {
 
 func (in *inst) run() {
 	c := in.c
-	in.root = hx.NewRoot(filter.Null())
+	if c.SlowNode {
+		// filtered nodes take 2 ms per parent event (their "update: ..." log line is slow): a burst queues up in front of them
+		in.root = hx.NewRootLog(filter.Null(), hx.SlowLog{Prefix: "update: %v events", D: 2 * time.Millisecond})
+	} else {
+		in.root = hx.NewRoot(filter.Null())
+	}
 	in.nodeFinal = map[string]string{}
 	in.readyFinal = map[string]bool{}
 	// driver 1: the parent (first list, then the history)
@@ -250,7 +256,11 @@ func (in *inst) run() {
 		}
 	}()
 	// final reader: runs when nothing else can happen (virtual time passes only at quiescence)
-	time.Sleep(time.Duration(1))
+	if c.SlowNode {
+		time.Sleep(time.Second) // the slow nodes' own 2 ms pauses are over long before
+	} else {
+		time.Sleep(time.Duration(1))
+	}
 	pl, _ := in.root.Cache.List()
 	in.parentFinal = hx.ListString(pl)
 	hx.Walk(in.nodes, func(n *hx.Node) {
@@ -402,7 +412,12 @@ func (in *inst) check(r *vs.Result) []string {
 				}
 			}
 		}
-		if !ok {
+		if !ok && c.SlowNode && versionsOfSomeInstant(o.list, tried) {
+			// every object read is a version the (filtered) parent held, but not all at one instant: the node subscribed,
+			// a burst was queued for it, it synced from the parent's newest content and then replayed the queued, older
+			// events over it (subscription_filter.go: the select takes "parent ready" before the queued events)
+			add("C08", "cache read after readiness mixes instants: events queued before the node synced are replayed over the newer list", "node %s: List() right after Ready() returned %s: each object is a version the parent held at some instant, but no parent content holds them together (candidates %v)", o.node, o.list, uniq(tried))
+		} else if !ok {
 			add("C08", "cache read at readiness is not a synced content", "node %s: List() right after Ready() returned %s, which is filter(P) for no parent content P under the filter(s) in force then (%d Refilter calls returned, %d started; candidates %v)", o.node, o.list, o.refDone, o.refStarted, uniq(tried))
 		}
 	}
@@ -508,6 +523,10 @@ func configs(tier string) []cfg {
 		// a relist that drops an object: the Delete it produces carries the cached (same) version
 		{Name: "fsub[l=1]/init-a1,b1/relist-drops-b", Variant: "fsub", F0: 2, Init: init2, Hist: []pop{{kind: "relist", list: []metav1.Object{a(1, "1")}}}, Mode: "S2", Bound: d},
 		{Name: "fclone[l=1]>fsub[name=a]/init-a1,b1/relist-drops-a", Variant: "fclone>fsub", F0: 2, F1: 4, Init: init2, Hist: []pop{{kind: "relist", list: []metav1.Object{b(1, "1")}}}, Mode: "S2", Bound: d},
+		// 30 parent events at once (the buffers in between hold 100) with filtered nodes slower than the parent: every
+		// one of them is applied and passed on
+		{Name: "fsub[l=1]/init-a1/burst30/slow-node", Variant: "fsub", F0: 2, Init: init1, Hist: burst(30), SlowNode: true, Mode: "S2", Bound: 1},
+		{Name: "fclone[l=1]>fsub[Null]/init-a1/burst30/slow-node", Variant: "fclone>fsub", F0: 2, F1: 0, Init: init1, Hist: burst(30), SlowNode: true, Mode: "S2", Bound: 1},
 		// events older than the newest object the node has seen: the Delete of a relist carries the (old) cached version,
 		// the Create of an upstream widening carries the object's (old) version - versions order one object's history,
 		// not the stream
@@ -540,6 +559,42 @@ func configs(tier string) []cfg {
 // controllerScenarios: the controller clauses of C08 on the whole real controller - Ready() closes only
 // after the first list has been applied (the cache read at that instant is a real accepted content), and a
 // first list that fails, blocks or is overtaken by Close / context cancellation never makes anything ready.
+// versionsOfSomeInstant: every object of the rendered list occurs in one of the rendered candidate contents.
+func versionsOfSomeInstant(list string, cands []string) bool {
+	have := map[string]bool{}
+	for _, c := range cands {
+		for _, o := range strings.Fields(strings.Trim(c, "[]")) {
+			have[o] = true
+		}
+	}
+	for _, o := range strings.Fields(strings.Trim(list, "[]")) {
+		if !have[o] {
+			return false
+		}
+	}
+	return true
+}
+
+// burst: n parent events over two keys, each changing the content (a flips its label, b comes and goes).
+func burst(n int) []pop {
+	pod := func(name string, v int, l string) metav1.Object { return hx.Pod("ns", name, fmt.Sprint(v), "l="+l) }
+	var h []pop
+	for i := 0; i < n; i++ {
+		v := i + 2
+		switch i % 4 {
+		case 0:
+			h = append(h, pop{kind: "update", obj: pod("a", v, "0")})
+		case 1:
+			h = append(h, pop{kind: "create", obj: pod("b", v, "1")})
+		case 2:
+			h = append(h, pop{kind: "update", obj: pod("a", v, "1")})
+		default:
+			h = append(h, pop{kind: "delete", obj: pod("b", v, "1")})
+		}
+	}
+	return h
+}
+
 func controllerScenarios(tier string) []runner.Sc {
 	d := 1
 	if tier == "thorough" {
